@@ -80,6 +80,14 @@ func c18ReaderScenarios(tier string) []schedScenario {
 				out = append(out, rdScenario{kind: set.kind, threads: [][]string{{a}, {b}}, qb: qb, tb: tb})
 			}
 		}
+		// the other compression types keep per-file compressor objects that every call shares: a few pairs each
+		for _, comp := range []string{"none", "gzip", "lzw"} {
+			c := set.calls
+			pairs := [][2]string{{c[0], c[1]}, {c[0], c[0]}, {c[1], c[5]}}
+			for _, p := range pairs {
+				out = append(out, rdScenario{kind: set.kind + "-" + comp, threads: [][]string{{p[0]}, {p[1]}}, qb: 1, tb: 2})
+			}
+		}
 		// three goroutines, and two calls per goroutine
 		c := set.calls
 		out = append(out, rdScenario{kind: set.kind, threads: [][]string{{c[0]}, {c[1]}, {c[5]}}, qb: 1, tb: 2})
@@ -110,8 +118,14 @@ func (r rdScenario) Exec(w *core.WCtx, prefix []int) (x schedExec) {
 	defer os.RemoveAll(dir)
 	var call func(name string) string
 	var closeFn func() error
-	if r.kind == "table" {
-		if err := writeTable(dir, c18Table, tblW{Writer: "stream", DataComp: 2, WBuf: 4096}); err != nil {
+	comp := 2 // snappy
+	kind := r.kind
+	if i := strings.Index(kind, "-"); i >= 0 {
+		comp = map[string]int{"none": 0, "gzip": 1, "snappy": 2, "lzw": 3}[kind[i+1:]]
+		kind = kind[:i]
+	}
+	if kind == "table" {
+		if err := writeTable(dir, c18Table, tblW{Writer: "stream", DataComp: comp, WBuf: 4096}); err != nil {
 			return schedExec{Problems: []string{"setup: " + err.Error()}}
 		}
 		rd, err := openTable(dir, tblR{RBuf: 4096})
@@ -122,7 +136,7 @@ func (r rdScenario) Exec(w *core.WCtx, prefix []int) (x schedExec) {
 		call = func(name string) string { return tableCall(rd, name) }
 	} else {
 		path := filepath.Join(dir, "f.rio")
-		m, _, err := rioWrite(path, []wop{{"W", rioRecIndex("a")}, {"W", rioRecIndex("x918d")}, {"W", rioRecIndex("nil")}, {"W", rioRecIndex("mk00ff")}}, rioCfg{Comp: 2, WBuf: 4096}, rioAlphabet())
+		m, _, err := rioWrite(path, []wop{{"W", rioRecIndex("a")}, {"W", rioRecIndex("x918d")}, {"W", rioRecIndex("nil")}, {"W", rioRecIndex("mk00ff")}}, rioCfg{Comp: comp, WBuf: 4096}, rioAlphabet())
 		if err != nil {
 			return schedExec{Problems: []string{"setup: " + err.Error()}}
 		}
